@@ -535,7 +535,7 @@ def rule_lookup_delegation(ctx, prog, rule="R13"):
             want_item = ("param", 2) if om["form"] == "collect" else om["item"]
             per = isinstance(v, tuple) and v[0] == "call" and v[1] == "len" and "Bins" in v[2] and \
                 (strip(v[3][0])[:2] == want_item[:2] if om["form"] == "collect" else strip(v[3][0]) == want_item)
-        if om["form"] == "collect":
+        if om["form"] == "collect" and om.get("vec") is None:
             returned = isinstance(r, tuple) and r[0] == "call" and r[1] == "collect"
         else:
             rl = [L for _d, L in returned_locals(prog.tracked(gs))]
@@ -623,7 +623,8 @@ def rule_r16(ctx, prog, rule="R16"):
             idx = strip(base[3][1])
             def peel(ix):
                 for _ in range(8):
-                    if isinstance(ix, tuple) and ix[0] == "call" and ix[1] in ("deref", "as_slice", "as_ref", "borrow") and ix[3]:
+                    if isinstance(ix, tuple) and ix[0] == "call" and ix[1] in ("deref", "as_slice", "as_ref", "borrow", "IxDyn", "into_dimension") \
+                            and len(ix[3]) == 1:      # IxDyn(&v) / v.into_dimension(): the same index as a dynamic dimension
                         ix = strip(ix[3][0])
                     elif isinstance(ix, tuple) and ix[0] == "call" and ix[1] == "index" and len(ix[3]) == 2 and \
                             isinstance(strip(ix[3][1]), tuple) and strip(ix[3][1])[0] == "agg" and strip(ix[3][1])[1] == "std::ops::RangeFull":
@@ -694,8 +695,14 @@ def rule_r16(ctx, prog, rule="R16"):
         vals = dict(zip(names, r[3]))
         c = strip(vals.get("counts"))
         g = strip(vals.get("grid"))
-        ok = isinstance(c, tuple) and c[0] == "call" and c[1] == "zeros" and strip(c[3][0])[0] == "call" and strip(c[3][0])[1] == "shape" \
-            and strip(strip(c[3][0])[3][0]) == g and g[:2] == ("param", 1)
+        zero_fill = isinstance(c, tuple) and c[0] == "call" and (c[1] == "zeros" or (c[1] in ("from_elem", "from_elem_dyn") and len(c[3]) == 2 and
+                                                                              strip(c[3][1]) == ("const", "usize", 0)))
+        shp = strip(c[3][0]) if zero_fill else None
+        for _ in range(6):
+            if isinstance(shp, tuple) and shp[0] == "call" and shp[1] in ("IxDyn", "deref", "as_slice", "as_ref", "into_dimension", "clone") and len(shp[3]) == 1:
+                shp = strip(shp[3][0])
+        ok = zero_fill and isinstance(shp, tuple) and shp[0] == "call" and shp[1] == "shape" and "Grid" in shp[2] \
+            and strip(shp[3][0]) == g and g[:2] == ("param", 1)
     ctx.ob(rule, "Histogram::new/counts-shape", ok, nb.where(), "counts = zeros(grid.shape()) of the grid that is stored" if ok else
            "Histogram::new builds `%s`" % fmt(r)[:200], what="counts array does not have the grid's shape")
     # HistogramExt::histogram: one add_observation per row, result ignored, no early exit
@@ -832,6 +839,15 @@ def _grid_per_axis(ctx, prog, meth, rule):
                 tg = prog.tracked(g)
                 pushes = [pb for pb, pt in tg.calls() if callee_name(pt) == "push"]
                 in_order = len(pushes) == 1
+                if not pushes:
+                    # an empty vector extended once by the mapped pairing, then returned
+                    om_ = ordered_map(prog, g)
+                    if om_ is not None and om_.get("vec") is not None and om_["form"] == "collect":
+                        from .rules_layout import producer_chain
+                        from .rules_result import returned_locals
+                        _rb, _re, chain, bad = producer_chain(prog, tg, om_["source"])
+                        rl_ = [L for _d, L in returned_locals(tg)]
+                        in_order = bad is None and rl_ == [om_["vec"]]
             ok = recv_ok and val_ok and in_order
             detail = "coordinate j goes to projection j (Bins::%s(bins_j, v_j) on the components of one undisturbed zip), results kept in axis order" % meth if ok else \
                 ("receiver from projections=%s value from the argument=%s in-order=%s" % (recv_ok, val_ok, in_order) if in_order or not (recv_ok and val_ok) else detail)
@@ -853,18 +869,47 @@ def rule_indices_of_tree(ctx, prog, rule="R20"):
     from .rules_zones import helper_filter
     b = inline_calls(prog, b, helper_filter(prog))       # the decision may live in a private helper taking the search result
     bs = [(bb, t) for bb, t in b.calls() if callee_name(t) == "binary_search"]
-    ok = len(bs) == 1
+    pps = [(bb, t) for bb, t in b.calls() if callee_name(t) == "partition_point"]
+    ok = len(bs) == 1 and not pps
+    pp_kind = None
     if ok:
         a = [strip(x) for x in b.call_arg_exprs(bs[0][0])]
         recv = a[0]
         while isinstance(recv, tuple) and recv[0] == "call" and recv[1] in ("deref", "as_slice") and recv[3]:
             recv = recv[3][0]
         ok = recv == ("field", ("param", 1, "self"), "edges") and a[1][:2] == ("param", 2)
-    ctx.ob(rule, "indices_of/search-operands", ok, b.where(), "binary_search(self.edges, value)" if ok else
-           "the search is not binary_search of the probe value over self.edges", what="lookup searches the wrong thing")
+    elif len(pps) == 1 and not bs:
+        # the other std search primitive: partition_point(|e| e <= value) is the number of edges ≤ value (on strictly increasing
+        # edges: i+1 after an exact hit on edge i, j for a probe strictly between edges j−1 and j); with `<` the number of edges < value
+        a = [strip(x) for x in b.call_arg_exprs(pps[0][0])]
+        recv = a[0]
+        while isinstance(recv, tuple) and recv[0] == "call" and recv[1] in ("deref", "as_slice") and recv[3]:
+            recv = recv[3][0]
+        if recv == ("field", ("param", 1, "self"), "edges") and isinstance(a[1], tuple) and a[1][:2] == ("agg", "closure") and a[1][2] in prog.bodies:
+            cb_ = prog.bodies[a[1][2]]
+            r_ = strip(cb_.return_expr())
+            flip_ = {"le": "ge", "lt": "gt", "ge": "le", "gt": "lt", "Le": "ge", "Lt": "gt", "Ge": "le", "Gt": "lt"}
+            if isinstance(r_, tuple) and ((r_[0] == "call" and r_[1] in ("le", "lt", "ge", "gt") and len(r_[3]) == 2) or
+                                          (r_[0] == "binop" and r_[1] in ("Le", "Lt", "Ge", "Gt"))):
+                opn = r_[1].lower()
+                x_, y_ = (r_[3][0], r_[3][1]) if r_[0] == "call" else (r_[2], r_[3])
+                for _ in range(3):
+                    x_ = strip(x_[1]) if isinstance(x_, tuple) and x_[0] in ("ref", "deref") else strip(x_)
+                    y_ = strip(y_[1]) if isinstance(y_, tuple) and y_[0] in ("ref", "deref") else strip(y_)
+                _pb, y_up = up(prog, cb_, y_)
+                _pb2, x_up = up(prog, cb_, x_)
+                if x_[:2] == ("param", 2) and strip(y_up)[:2] == ("param", 2) and y_[0] == "upvar":
+                    pp_kind = opn if opn in ("le", "lt") else None
+                elif y_[:2] == ("param", 2) and strip(x_up)[:2] == ("param", 2) and x_[0] == "upvar":
+                    pp_kind = flip_[opn] if flip_[opn] in ("le", "lt") else None
+        ok = pp_kind is not None
+    ctx.ob(rule, "indices_of/search-operands", ok, b.where(), ("binary_search(self.edges, value)" if pp_kind is None else
+           "partition_point(self.edges, |e| e %s value)" % ("<=" if pp_kind == "le" else "<")) if ok else
+           "the search is not binary_search (or partition_point by comparison with the probe) of the probe value over self.edges",
+           what="lookup searches the wrong thing")
     if not ok:
         return
-    bse = strip(b.call_expr(bs[0][0]))
+    bse = strip(b.call_expr((bs or pps)[0][0]))
     # Edges::len really is the number of edges
     lb = prog.find("histogram::bins::Edges::<A>::len")
     lr = strip(lb.return_expr())
@@ -901,6 +946,8 @@ def rule_indices_of_tree(ctx, prog, rule="R20"):
                "Edges::%s is `%s`, not a plain view of the stored edges" % (acc, fmt(r0)[:120]), what="accessor hides or reorders edges")
 
     def sym(e):
+        if pp_kind is not None and e == bse:
+            return "pp"
         if isinstance(e, tuple) and e[0] == "discr" and e[1] == bse:
             return "variant"
         if isinstance(e, tuple) and e[0] == "field" and e[2] == "0" and isinstance(e[1], tuple) and e[1][0] == "downcast" and e[1][1] == bse:
@@ -930,6 +977,8 @@ def rule_indices_of_tree(ctx, prog, rule="R20"):
             rng = range(0, n) if variant == 0 else range(0, n + 1)
             for i in rng:
                 env = {"variant": variant, "n": n, ("idx_Ok" if variant == 0 else "idx_Err"): i}
+                if pp_kind is not None:
+                    env = {"n": n, "pp": (i + 1 if (variant == 0 and pp_kind == "le") else i)}
                 taken = []
                 for pinfo in paths:
                     decisions, rd, asserts = pinfo
@@ -1000,6 +1049,32 @@ def ordered_map(prog, body):
                     return dict(form="collect", source=m[3][0], value=strip(cb.return_expr()), item=("param", 2), vbody=cb, fn=None)
                 if isinstance(f, tuple) and f[0] == "fn":
                     return dict(form="collect", source=m[3][0], value=None, item=None, vbody=None, fn=f[1])
+    # `let mut v = Vec::with_capacity(n); v.extend(iter.map(f)); v` – an empty vector extended once by the mapped traversal is the
+    # same vector as the collected one (the only mutation of that vector)
+    for bb, t in tb.calls():
+        if callee_name(t) == "extend" and len(tb.call_arg_exprs(bb)) == 2:
+            m = strip(tb.call_arg_exprs(bb)[1])
+            recv = t["args"][0]
+            vec = None
+            for l in range(1, len(tb.raw["locals"])):
+                ms = mutation_sites(tb, l)
+                if ms and (bb, "extend") in ms:
+                    vec = l if len(ms) == 1 else -1
+            starts_empty = False
+            if vec and vec > 0:
+                from .vecbuild import build_of
+                try:
+                    segs = build_of(prog, tb, vec)
+                except Exception:
+                    segs = None
+                starts_empty = bool(segs) and segs[0] == ("elems", []) and len(segs) == 2
+            if starts_empty and isinstance(m, tuple) and m[0] == "call" and m[1] == "map" and len(m[3]) == 2:
+                cb, _ups = closure_of(prog, m[3][1])
+                f = strip(m[3][1])
+                if cb is not None:
+                    return dict(form="collect", source=m[3][0], value=strip(cb.return_expr()), item=("param", 2), vbody=cb, fn=None, vec=vec)
+                if isinstance(f, tuple) and f[0] == "fn":
+                    return dict(form="collect", source=m[3][0], value=None, item=None, vbody=None, fn=f[1], vec=vec)
     try:
         lp = T_.Loop(tb)
         it = lp.iterator()
